@@ -304,7 +304,7 @@ def load_findings(prop: str) -> list[dict]:
     found = json.loads(path.read_text()).get('findings', []) if path.exists() else []
     for frag in sorted((ROOT / 'findings.d').glob('*.json')):   # fragments awaiting merge into the main file
         found.append(json.loads(frag.read_text()))
-    return [f for f in found if f.get('property') == prop]
+    return [f for f in found if f.get('property') == prop or prop in f.get('also_properties', [])]
 
 
 # --------------------------------------------------------------------------------------
